@@ -539,14 +539,43 @@ func TestDiffApplyRevert(t *testing.T) {
 		var diffKeys [][]byte
 		var log []string
 		recreate := false
+		snapshotRestored := false
 		for b := 0; b < blocks; b++ {
 			befores = append(befores, dump())
 			st := diffdb.New(d, prefix)
 			deleted := map[string]bool{}
 			nOps := rapid.IntRange(1, 10).Draw(t, "ops")
+			// snapshots: what the state machine does around every command (taken before, restored when the command fails). A restored
+			// overlay must still remember the values the keys had BEFORE the block (added after seeded change C05-q: the snapshot copy
+			// took the staged value for the original one, so a block with a rolled-back command could not be reverted exactly).
+			snap := -1
+			var snapDeleted map[string]bool
 			for i := 0; i < nOps; i++ {
 				k := keyGen.Draw(t, "k")
-				switch rapid.SampledFrom([]string{"set", "set", "del", "get"}).Draw(t, "op") {
+				switch rapid.SampledFrom([]string{"set", "set", "del", "get", "snapshot", "restore"}).Draw(t, "op") {
+				case "snapshot":
+					if snap < 0 {
+						snap = st.Snapshot()
+						snapDeleted = map[string]bool{}
+						for x := range deleted {
+							snapDeleted[x] = true
+						}
+						log = append(log, fmt.Sprintf("b%d snapshot", b))
+					}
+					continue
+				case "restore":
+					if snap >= 0 {
+						if err := st.RestoreSnapshot(snap); err != nil {
+							t.Fatalf("RestoreSnapshot: %v\nops: %v", err, log)
+						}
+						snap = -1
+						deleted = snapDeleted
+						snapshotRestored = true
+						log = append(log, fmt.Sprintf("b%d restore", b))
+					}
+					continue
+				}
+				switch rapid.SampledFrom([]string{"set", "set", "del", "get"}).Draw(t, "op2") {
 				case "set":
 					v := valGen.Draw(t, "v")
 					if _, existed := befores[b][string(append(append([]byte{}, prefix...), k...))]; existed && deleted[string(k)] {
@@ -590,6 +619,9 @@ func TestDiffApplyRevert(t *testing.T) {
 		labels := []string{"diff-apply-revert"}
 		if recreate {
 			labels = append(labels, "delete-then-recreate-of-stored-key")
+		}
+		if snapshotRestored {
+			labels = append(labels, "diff-with-restored-snapshot")
 		}
 		evid.R.Case("diff|"+strings.Join(log, ";"), recreate || blocks > 1, nil, labels...)
 	})
